@@ -116,7 +116,23 @@ func c19Worker(seed int64, id int, useUDP bool, concurrent bool) (transcript []s
 		}
 		return 0, nil, false
 	}
-	inner := refbmc.Chain(odd, repo.Handle, cssrv.Handle, sd.Handle, dcm.Handle, refbmc.Fixed(6, 0x37, 0, guid), refbmc.Fixed(6, 0x01, 0, devid),
+	busyN, infoN := 0, 0
+	extra := func(e *refbmc.Event) (byte, []byte, bool) {
+		switch {
+		case e.NetFn == 6 && e.Cmd == 0x71:
+			// busy on every first attempt, then the answer
+			busyN++
+			if busyN%2 == 1 {
+				return 0xc0, nil, true
+			}
+			return 0, []byte{byte(id), byte(busyN)}, true
+		case e.NetFn == 6 && e.Cmd == 0x3d:
+			infoN++
+			return 0, []byte{byte(infoN), 0x24, 1, 2, 4, 0x11, 10, byte(id), byte(infoN), byte(infoN * 7), 2, byte(id), 3, byte(infoN), 5, 6, byte(infoN), byte(id)}, true
+		}
+		return 0, nil, false
+	}
+	inner := refbmc.Chain(odd, extra, repo.Handle, cssrv.Handle, sd.Handle, dcm.Handle, refbmc.Fixed(6, 0x37, 0, guid), refbmc.Fixed(6, 0x01, 0, devid),
 		refbmc.Fixed(6, 0x38, 0, []byte{1, 0x80, 0x14, 0x02, 0, 0, 0, byte(id)}), refbmc.Fixed(0, 0x01, 0, []byte{0x21, 0x10, 0x40, byte(id)}), refbmc.Fixed(6, 0x3c, 0, nil))
 	b.Handler = func(e *refbmc.Event) (byte, []byte, bool) {
 		c19Stamp(id)
@@ -204,9 +220,13 @@ func c19Worker(seed int64, id int, useUDP bool, concurrent bool) (transcript []s
 	// across session open/close cycles, and one that keeps dialling fresh connections
 	var script []int
 	switch id % 4 {
+	case 1:
+		for k := 0; k < 6; k++ {
+			script = append(script, 2, 16, 16, 15, 16, 4)
+		}
 	case 0:
 		for k := 0; k < 8; k++ {
-			script = append(script, 2, 3, 100, 0, 0, 9)
+			script = append(script, 2, 3, 15, 16, 100, 0, 0, 9)
 		}
 	case 2:
 		for k := 0; k < 16; k++ {
@@ -217,12 +237,15 @@ func c19Worker(seed int64, id int, useUDP bool, concurrent bool) (transcript []s
 		nops = len(script)
 	}
 	for i := 0; i < nops; i++ {
-		op := r.Intn(15)
+		op := r.Intn(17)
 		if len(script) > 0 {
 			op = script[i]
 		}
 		if sess == nil && op >= 3 && op != 13 && op != 100 {
 			op = 2
+		}
+		if op == 16 && useUDP {
+			op = 15 // a busy reply over UDP costs the library's own 500 ms back-off; the in-memory workers (zero back-off) take those
 		}
 		switch op {
 		case 100:
@@ -303,6 +326,18 @@ func c19Worker(seed int64, id int, useUDP bool, concurrent bool) (transcript []s
 			cmd := &RawCmd{Op: ipmi.Operation{Function: ipmi.NetworkFunctionAppReq, Command: 0x70}, NoReq: true, NoRsp: true}
 			code, err := sess.SendCommand(ctx, cmd)
 			rec("odd-code", fmt.Sprintf("%v", code), err)
+		case 15:
+			v, err := sess.GetSessionInfo(ctx, &ipmi.GetSessionInfoReq{Index: ipmi.SessionIndexCurrent})
+			runtime.Gosched() // the result is looked at a moment later, as a caller would
+			if v != nil {
+				rec("sessioninfo", fmt.Sprintf("%v %v %v %d %v", v.Handle, v.IP, v.MAC, v.Port, v.PrivilegeLevel), err)
+			} else {
+				rec("sessioninfo", nil, err)
+			}
+		case 16:
+			cmd := &RawCmd{Op: ipmi.Operation{Function: ipmi.NetworkFunctionAppReq, Command: 0x71}, NoReq: true}
+			code, err := sess.SendCommand(ctx, cmd)
+			rec("busy-then-ok", fmt.Sprintf("%v %x", code, cmd.Rsp.Data), err)
 		case 13:
 			// the session (if any) is closed, the old connection is kept open and a new one is dialled
 			if sess != nil {
